@@ -740,6 +740,10 @@ class VectorContainer:
                 else:
                     value = str(value)
 
+            elif np.issubdtype(self[name].dtype, np.bytes_):
+                if value is None:
+                    value = b''
+
             # Take the existing values from the (deep) copy made above, so that
             # the elements of object-dtype variables are not shared with the
             # original
